@@ -1,4 +1,4 @@
-(* C09 proofs, part 3: PolyLine2D, PolyElem, Polygons, Faults with the candidate fixes.
+(* C09 proofs, part 3: PolyLine2D, PolyElem, Polygons, Faults as the code is now (fixes C09_1, C09_2 applied).
    Allocation is bounded by an amortised argument: potential = ghost counter + 16 * (bytes not yet consumed). *)
 From Coq Require Import List ZArith QArith Bool Lia Arith.
 From Gst Require Import C09.Model C09.Readers C09.Spec C09.Proofs_prim.
@@ -18,13 +18,13 @@ Definition pspec {A} (wf : A -> Prop) (extra : Z) (m : mon) (r : res (option A))
 Section Fixed.
 Variable E : env.
 Variable flen : Z.
-Hypothesis Hcfg : e_cfg E = cfg_fixed.
+Hypothesis Hcfg : cfg_ge_now (e_cfg E).
 Hypothesis Hflen : 0 <= flen.
 Hypothesis Hfuel : flen < Z.of_nat (e_fuel E).
 Hypothesis Hcap : alloc_bound flen <= e_cap E.
 
-Lemma HFS : fix_store (e_cfg E) = true. Proof. rewrite Hcfg; reflexivity. Qed.
-Lemma HFC : fix_counts (e_cfg E) = true. Proof. rewrite Hcfg; reflexivity. Qed.
+Lemma HFS : fix_store (e_cfg E) = true. Proof. destruct Hcfg as [H1 [H2 [H3 H4]]]; assumption. Qed.
+Lemma HFC : fix_counts (e_cfg E) = true. Proof. destruct Hcfg as [H1 [H2 [H3 H4]]]; assumption. Qed.
 Lemma cap_pos : 4096 <= e_cap E. Proof. unfold alloc_bound in Hcap. lia. Qed.
 
 Lemma pl_loop_spec : forall fuel np i accx accy m,
